@@ -174,6 +174,24 @@ func RandService(r *fw.Rand, id string) map[string]interface{} {
 	if r.Chance(1, 4) {
 		s["recipientKeys"] = []interface{}{"did:example:123#key-1"}
 	}
+	if r.Chance(1, 6) {
+		// empty containers are values like any other: they stay what they are ([] is not null, {} is not absent)
+		switch r.Intn(4) {
+		case 0:
+			s["routingKeys"] = []interface{}{}
+		case 1:
+			s["properties"] = map[string]interface{}{}
+		case 2:
+			s["accept"] = []interface{}{}
+			s["tags"] = []interface{}{[]interface{}{}, map[string]interface{}{}}
+		case 3:
+			if m, ok := s["serviceEndpoint"].(map[string]interface{}); ok {
+				m["routingKeys"] = []interface{}{}
+			} else {
+				s["recipientKeys"] = []interface{}{}
+			}
+		}
+	}
 	return s
 }
 
